@@ -2070,6 +2070,84 @@ void gray_cb(apim::ObserverResult result, void *)
   nostd::get<nostd::shared_ptr<apim::ObserverResultT<int64_t>>>(result)->Observe(7);
 }
 
+// one further instrument per scope, of a kind that rotates through every remaining Create* entry point of the
+// meter: a disabled meter must be inert for EVERY kind of instrument, an enabled one must produce the stream
+void extra_cb(apim::ObserverResult result, void *)
+{
+  if (nostd::holds_alternative<nostd::shared_ptr<apim::ObserverResultT<int64_t>>>(result))
+    nostd::get<nostd::shared_ptr<apim::ObserverResultT<int64_t>>>(result)->Observe(1);
+  else
+    nostd::get<nostd::shared_ptr<apim::ObserverResultT<double>>>(result)->Observe(1.0);
+}
+constexpr unsigned kExtraKinds = 10;
+const char *const kExtraKindName[kExtraKinds] = {
+    "DoubleCounter",       "Int64ObservableCounter", "DoubleObservableCounter", "UInt64Histogram",
+    "DoubleHistogram",     "DoubleObservableGauge",  "Int64UpDownCounter",      "DoubleUpDownCounter",
+    "Int64ObservableUpDownCounter", "DoubleObservableUpDownCounter"};
+struct ExtraInstrument
+{
+  nostd::unique_ptr<apim::Counter<double>> dc;
+  nostd::unique_ptr<apim::Histogram<uint64_t>> lh;
+  nostd::unique_ptr<apim::Histogram<double>> dh;
+  nostd::unique_ptr<apim::UpDownCounter<int64_t>> lu;
+  nostd::unique_ptr<apim::UpDownCounter<double>> du;
+  nostd::shared_ptr<apim::ObservableInstrument> obs;
+  bool create(apim::Meter &m, unsigned kind)
+  {
+    switch (kind)
+    {
+      case 0:
+        dc = m.CreateDoubleCounter("c19.extra", "", "");
+        if (dc)
+          dc->Add(1.0);
+        return static_cast<bool>(dc);
+      case 1:
+        obs = m.CreateInt64ObservableCounter("c19.extra", "", "");
+        break;
+      case 2:
+        obs = m.CreateDoubleObservableCounter("c19.extra", "", "");
+        break;
+      case 3:
+        lh = m.CreateUInt64Histogram("c19.extra", "", "");
+        if (lh)
+          lh->Record(1, opentelemetry::context::Context{});
+        return static_cast<bool>(lh);
+      case 4:
+        dh = m.CreateDoubleHistogram("c19.extra", "", "");
+        if (dh)
+          dh->Record(1.0, opentelemetry::context::Context{});
+        return static_cast<bool>(dh);
+      case 5:
+        obs = m.CreateDoubleObservableGauge("c19.extra", "", "");
+        break;
+      case 6:
+        lu = m.CreateInt64UpDownCounter("c19.extra", "", "");
+        if (lu)
+          lu->Add(1);
+        return static_cast<bool>(lu);
+      case 7:
+        du = m.CreateDoubleUpDownCounter("c19.extra", "", "");
+        if (du)
+          du->Add(1.0);
+        return static_cast<bool>(du);
+      case 8:
+        obs = m.CreateInt64ObservableUpDownCounter("c19.extra", "", "");
+        break;
+      default:
+        obs = m.CreateDoubleObservableUpDownCounter("c19.extra", "", "");
+        break;
+    }
+    if (obs)
+      obs->AddCallback(extra_cb, nullptr);
+    return static_cast<bool>(obs);
+  }
+  void release()
+  {
+    if (obs)
+      obs->RemoveCallback(extra_cb, nullptr);
+  }
+};
+
 // ---------------------------------------------------------------- every way to build a provider
 // The configurator travels through each public constructor / factory overload that takes one; the
 // overloads without a configurator must behave like "no rules, everything enabled".
@@ -2391,6 +2469,7 @@ VH_TARGET(scope_rules, 2,
     mp->AddMetricReader(reader);
     std::vector<nostd::unique_ptr<apim::Counter<uint64_t>>> counters;
     std::vector<nostd::shared_ptr<apim::ObservableInstrument>> gauges;
+    std::vector<std::unique_ptr<ExtraInstrument>> extras;
     for (size_t j = 0; j < scopes.size(); ++j)
     {
       Held hn(scopes[j].name), hv(scopes[j].version), hs(scopes[j].schema);
@@ -2403,6 +2482,10 @@ VH_TARGET(scope_rules, 2,
       VH_CHECK(c, counters.back() && gauges.back(), "a meter returned a null instrument");
       gauges.back()->AddCallback(gray_cb, nullptr);
       counters.back()->Add(counts[j]);
+      extras.emplace_back(new ExtraInstrument);
+      unsigned ek = static_cast<unsigned>((j * 3 + counts[j]) % kExtraKinds);
+      VH_CHECK(c, extras.back()->create(*meter, ek), "a meter returned a null " << kExtraKindName[ek]);
+      c.tag(std::string("meter-scope-extra-") + kExtraKindName[ek]);
     }
     std::vector<Stream> seen;
     collect(*reader, &seen, c);
@@ -2413,12 +2496,14 @@ VH_TARGET(scope_rules, 2,
     for (size_t j = 0; j < scopes.size(); ++j)
     {
       bool en = model_enabled(eff_rules, default_enabled, scopes[j]);
-      size_t n_count = 0, n_gauge = 0, n_other = 0;
+      size_t n_count = 0, n_gauge = 0, n_other = 0, n_extra = 0;
       for (auto &s : seen)
       {
         if (!(s.scope == scopes[j]))
           continue;
-        if (s.name == "c19.count" && s.series.size() == 1 && s.series.begin()->second.kind == kSumK &&
+        if (s.name == "c19.extra" && s.series.size() == 1)
+          ++n_extra;
+        else if (s.name == "c19.count" && s.series.size() == 1 && s.series.begin()->second.kind == kSumK &&
             s.series.begin()->second.value == counts[j])
           ++n_count;
         else if (s.name == "c19.gauge" && s.series.size() == 1 && s.series.begin()->second.kind == kLastK &&
@@ -2428,17 +2513,21 @@ VH_TARGET(scope_rules, 2,
           ++n_other;
       }
       size_t want = en ? 1 : 0;
-      expected_total += 2 * want;
-      VH_CHECK(c, n_count == want && n_gauge == want && n_other == 0,
+      expected_total += 3 * want;
+      VH_CHECK(c, n_count == want && n_gauge == want && n_extra == want && n_other == 0,
                "meter " << show_scope(scopes[j]) << " is " << (en ? "enabled" : "disabled")
                         << " by the rules; the reader saw " << n_count << " counter stream(s), " << n_gauge
-                        << " gauge stream(s) and " << n_other << " other stream(s) of that scope\nprovider built by "
+                        << " gauge stream(s), " << n_extra << " stream(s) of its "
+                        << kExtraKindName[(j * 3 + counts[j]) % kExtraKinds] << " and " << n_other
+                        << " other stream(s) of that scope\nprovider built by "
                         << kMeterPathName[mpath] << "\n"
                         << show_rules(rules, default_cfg));
     }
     VH_CHECK(c, seen.size() == expected_total, "the reader saw " << seen.size() << " streams, expected " << expected_total);
     for (auto &g : gauges)
       g->RemoveCallback(gray_cb, nullptr);
+    for (auto &e : extras)
+      e->release();
   }
 
   // ---- loggers (an empty library name means "use the logger name" as the scope name); the logger
